@@ -2,13 +2,15 @@
 """Apply a seeded patch to /repo, run the quick checks, undo the patch.
 usage: try_seed.py <patch.diff> [PROP ...]     (default: all claimed properties)
 Prints, per property, exit code and the rules that fired."""
-import json, re, subprocess, sys
+import fcntl, json, re, subprocess, sys
 from pathlib import Path
 from concurrent.futures import ThreadPoolExecutor
 
 VERIF = Path(__file__).resolve().parent.parent
 patch = str(Path(sys.argv[1]).resolve())
 props = sys.argv[2:] or [c["property_id"] for c in json.loads((VERIF / "MANIFEST.json").read_text())["checks"]]
+_lock = open("/tmp/.odfsa_try_seed.lock", "w")
+fcntl.flock(_lock, fcntl.LOCK_EX)  # one patch in /repo at a time
 st = subprocess.run(["git", "-C", "/repo", "status", "--porcelain", "--untracked-files=no"], capture_output=True, text=True).stdout.strip()
 if st:
     sys.exit(f"/repo is not clean:\n{st}")
